@@ -1,21 +1,36 @@
 (* C12: Ty::max does not depend on the order of its operands, for ALL types outside
    [known_order] (placeholder pair Unknown/AlwaysJumps, reused distinct uid). *)
-From Capy Require Import Common.Util Common.Ty Model.TyRel Model.ExpectMatch Spec.TyLaws Proofs.TyRelBasics.
+From Capy Require Import Common.Util Common.Ty.
+From Capy Require Import Model.TyRel Model.ExpectMatch Spec.TyLaws Proofs.TyRelBasics.
 Local Arguments N.eqb : simpl never.
 Local Arguments N.leb : simpl never.
 Local Arguments N.ltb : simpl never.
 Local Arguments N.max : simpl never.
 Local Arguments N.mul : simpl never.
 
+Section WithFixes.
+Variable fx : fixes.
+Notation fit := (TyRel.fit fx).
+Notation weak := (TyRel.weak fx).
+Notation feq := (TyRel.feq fx).
+Notation cast := (TyRel.cast fx).
+Notation has_semantics_of := (TyRel.has_semantics_of fx).
+Notation tmax := (TyRel.tmax fx).
+Notation accepts := (TyLaws.accepts fx).
+Notation known_weak_fit := (TyLaws.known_weak_fit fx).
+Notation known_max := (TyLaws.known_max fx).
+Notation max_accepts := (TyLaws.max_accepts fx).
+Notation ntarget := (TyLaws.ntarget fx).
+
 Lemma hs_distinct_neq u1 s1 u2 s2 : N.eqb u1 u2 = false ->
   has_semantics_of (Distinct u1 s1) (Distinct u2 s2) = false.
 Proof.
-  intros H. cbn [has_semantics_of]. rewrite H. cbn [fit ty_eqb]. rewrite H. reflexivity.
+  intros H. cbn [TyRel.has_semantics_of]. rewrite H. cbn [TyRel.fit ty_eqb]. rewrite H. reflexivity.
 Qed.
 
 Local Arguments ty_eqb : simpl never.
-Local Arguments fit : simpl never.
-Local Arguments has_semantics_of : simpl never.
+Local Arguments TyRel.fit : simpl never.
+Local Arguments TyRel.has_semantics_of : simpl never.
 Local Arguments is_zero_sized : simpl never.
 
 Lemma max_order_lem : forall m a b, known_order a b = false -> tmax m a b = tmax m b a.
@@ -24,8 +39,8 @@ Proof.
     (match goal with |- tmax _ ?A _ = _ => destruct (ty_eqb A b) eqn:E end;
      [ apply ty_eqb_eq in E; subst b; reflexivity | ]);
     pose proof E as E'; rewrite ty_eqb_sym in E';
-    destruct b; try (rewrite ty_eqb_refl in E; discriminate E); cbn [known_order] in Hk; rewrite E in Hk; try discriminate Hk;
-    cbn [tmax]; rewrite E, E'; cbn -[tmax]; try reflexivity.
+    destruct b; try (rewrite ty_eqb_refl in E; discriminate E); cbn [TyLaws.known_order] in Hk; rewrite E in Hk; try discriminate Hk;
+    cbn [TyRel.tmax]; rewrite E, E'; cbn -[TyRel.tmax]; try reflexivity.
   all: repeat (first
      [ reflexivity
      | match goal with
@@ -37,7 +52,7 @@ Proof.
        | |- context [has_semantics_of ?x ?y] => destruct (has_semantics_of x y) eqn:?
        | |- context [fit ?x ?y] => destruct (fit x y)
        | |- context [match get_enum ?m ?e with Some _ => _ | None => _ end] => destruct (get_enum m e)
-       end ]; cbn -[tmax]).
+       end ]; cbn -[TyRel.tmax]).
   all: try solve [repeat f_equal; lia].
   all: try solve [rewrite N.max_comm; reflexivity].
   all: try solve [exfalso;
@@ -46,3 +61,5 @@ Proof.
   - rewrite (IHa b Hk). reflexivity.
   - apply orb_false_iff in Hk as [K1 K2]. rewrite (IHa1 b1 K1), (IHa2 b2 K2). reflexivity.
 Qed.
+
+End WithFixes.
